@@ -7,9 +7,14 @@
  *
  * A monitor installs one callback with yakushima::verif::set_hook(). The
  * library calls it at the points listed in yakushima::verif::point. The
- * callback may delay, yield, count or record; it must not call back into
- * yakushima. The boolean result is only used by point::SLEEP (true = the
- * caller skips the real sleep, used for virtual time).
+ * callback may delay, yield, count or record. It must not call back into
+ * yakushima from a point reached while the calling thread holds a node lock
+ * or the root lock. The one supported re-entry: at point::ATOMIC inside an
+ * optimistic reader (get / scan / iscan hold no lock), a monitor may run
+ * complete operations of ANOTHER session on the same thread - for the library
+ * this is indistinguishable from the reader being preempted before that load
+ * while other threads run. The boolean result is only used by point::SLEEP
+ * (true = the caller skips the real sleep, used for virtual time).
  */
 
 #pragma once
